@@ -54,17 +54,19 @@ type Target struct {
 	Timeout     string            `json:"timeout,omitempty"`
 	Checks      []Check           `json:"checks,omitempty"`
 	// behaviour knobs (part of the command text)
-	FailExit  int    `json:"fail_exit,omitempty"`
-	FailIf    string `json:"fail_if,omitempty"`
-	SleepMs   int    `json:"sleep_ms,omitempty"`
-	TrapTerm  bool   `json:"trap_term,omitempty"` // the target's shell ignores SIGTERM
-	SleepIf   string `json:"sleep_if,omitempty"`  // marker: sleep 20 s when present
-	Omit      string `json:"omit,omitempty"`
-	OmitIf    string `json:"omit_if,omitempty"` // marker: do not write outputs when present
-	Touch     string `json:"touch,omitempty"`   // marker created by the command (establishes a checked condition)
-	Untouch   string `json:"untouch,omitempty"` // marker removed by the command while UntouchIf is present (the command itself breaks a checked condition)
-	UntouchIf string `json:"untouch_if,omitempty"`
-	RawCmd    string `json:"raw_cmd,omitempty"` // if set, used verbatim as the command
+	FailExit int    `json:"fail_exit,omitempty"`
+	FailIf   string `json:"fail_if,omitempty"`
+	SleepMs  int    `json:"sleep_ms,omitempty"`
+	// SleepAfterMs: the command keeps running for this long after it has written its outputs
+	SleepAfterMs int    `json:"sleep_after_ms,omitempty"`
+	TrapTerm     bool   `json:"trap_term,omitempty"` // the target's shell ignores SIGTERM
+	SleepIf      string `json:"sleep_if,omitempty"`  // marker: sleep 20 s when present
+	Omit         string `json:"omit,omitempty"`
+	OmitIf       string `json:"omit_if,omitempty"` // marker: do not write outputs when present
+	Touch        string `json:"touch,omitempty"`   // marker created by the command (establishes a checked condition)
+	Untouch      string `json:"untouch,omitempty"` // marker removed by the command while UntouchIf is present (the command itself breaks a checked condition)
+	UntouchIf    string `json:"untouch_if,omitempty"`
+	RawCmd       string `json:"raw_cmd,omitempty"` // if set, used verbatim as the command
 	// Shape: how the command line is written. "" = the plain helper invocation; "and" = `helper
 	// ... && true` (a failing helper is the non-final member of an AND list: `set -e` does not
 	// fire, the script simply ends with the helper's status); "nosete" = `set +e; helper ...`
@@ -191,6 +193,9 @@ func (t *Target) Command() string {
 	}
 	if t.SleepIf != "" {
 		sb.WriteString(" --sleepif " + shq(t.SleepIf))
+	}
+	if t.SleepAfterMs != 0 {
+		fmt.Fprintf(&sb, " --sleepafter %d", t.SleepAfterMs)
 	}
 	if t.Omit != "" {
 		sb.WriteString(" --omit " + shq(t.Omit))
